@@ -787,10 +787,13 @@ class _ColorConfColorDescr:
             self.modifiers = {**parent.modifiers, **self.modifiers}
         else:
             assert parent is None
-            if self.fg_color in ["-", ""]:
-                self.fg_color = None
-            if self.bg_color in ["-", ""]:
-                self.bg_color = None
+
+        # "-" explicitly selects the terminal default color (overrides the
+        # color of the parent); "" at this point also means default color
+        if self.fg_color in ["-", ""]:
+            self.fg_color = None
+        if self.bg_color in ["-", ""]:
+            self.bg_color = None
 
         if no_color:
             self.color_fmt = ColorsConfig._NO_EFFECTS_FMT
